@@ -42,6 +42,12 @@ func runC16(c *core.Ctx) {
 	if pi%7 == 0 {
 		p.Args = nil
 	}
+	if pi%9 == 4 {
+		// many arguments
+		for len(p.Args) < 5+pi%4 {
+			p.Args = append(p.Args, &ArgDecl{Name: "tmp", Multi: true})
+		}
+	}
 	for _, a := range p.Args {
 		a.EnvSet = pi%3 == 0 && c.R.Intn(2) == 0 // a set environment variable must not change the generated spec
 	}
